@@ -106,6 +106,9 @@ def model_forest_to_canon(text):
 
 
 def gen_item_C09(rng, idx, tier):
+    if idx in (0, 1):
+        # a tree deeper than the interpreter's recursion limit (predicate only: too large for the model driver)
+        return {'mode': 'deep', 'size': 1300 if tier == 'quick' else 2600, 'fmt': ['hdf5', 'fits'][idx]}
     r = idx % 5
     if r == 3:
         n = rng.randint(1, 9 if tier == 'quick' else 14)
@@ -150,6 +153,38 @@ def eval_C09(item):
     from astrodendro import Dendrogram
     from astrodendro.io.util import parse_newick
     drv = session.driver()
+    if item['mode'] == 'deep':
+        n = item['size']
+        d1_ = np.arange(n * 2)
+        d2_ = np.arange(n * 2)
+        d2_[::2] += 2
+        d1_[-1] = 0
+        data = np.vstack((d1_, d2_)).astype(float)
+        d = Dendrogram.compute(data)
+        depth = max(s.level for s in d)
+        res['tags'].append('depth>=%d' % (depth // 500 * 500))
+        path = tmpfile('.' + item['fmt'])
+        try:
+            with warnings.catch_warnings():
+                warnings.simplefilter('ignore')
+                d.save_to(path)
+                d2 = Dendrogram.load_from(path)
+        except RecursionError as e:
+            res['pred'].append('a dendrogram %d levels deep cannot be saved and loaded (%s): RecursionError' % (depth, item['fmt']))
+            return res
+        finally:
+            if os.path.exists(path):
+                os.remove(path)
+
+        def links(dd):
+            return sorted((int(s.idx), -1 if s.parent is None else int(s.parent.idx), tuple(int(c.idx) for c in s.children)) for s in dd)
+        if links(d) != links(d2) or [int(s.idx) for s in d.trunk] != [int(s.idx) for s in d2.trunk]:
+            res['pred'].append('deep dendrogram (%d levels) differs after save/load' % depth)
+        if d.to_newick() != d2.to_newick() or not np.array_equal(d.index_map, d2.index_map):
+            res['pred'].append('deep dendrogram: Newick text or label map differs after save/load')
+        if max(s.level for s in d2) != depth:
+            res['pred'].append('deep dendrogram: levels differ after load')
+        return res
     if item['mode'] == 'newick':
         heights = dict(item['heights'])
         text = tree_text(item['roots'], heights)
